@@ -422,3 +422,22 @@ def _same_types(a, b):
     if isinstance(a, list):
         return all(_same_types(x, y) for x, y in zip(a, b))
     return True
+
+
+@harness("json.non_utf8_strings_are_written_in_ascii", props=["C15", "C07"], functions=["code_data._json_data.value_to_json", "code_data._json_data.constant_value_from_json"], configs="any", engine="E2",
+         notes="bounded (representatives): a string that cannot be UTF-8 encoded (lone surrogates) is written as {'string': <ASCII-only literal>} whatever other characters it holds - "
+               "characters whose printability differs between Unicode versions (U+1F90D: 12.0, U+1FAE0: 14.0, U+1FAE8: 15.0, U+0378: unassigned) included - so the document "
+               "does not depend on the interpreter that wrote it; and it reads back exactly")
+def h_surrogates_ascii(ctx, cfg):
+    from pcv import rewrite as rw
+    rw.Source.of(J).get_def("value_to_json")
+    reps = ["\ud800", "a\udfffb", "\ud800é", "🤍 \udc80", "x\ud800\U0001F90D", "\udc00\U0001FAE0", "\udc00\U0001FAE8", "\udc00͸", "\ud800'\"\\\n\t\x00\x7f\x85 ", "\ud800" + "\U0010FFFF"]
+    for i, v in enumerate(reps):
+        for where, wrap, unwrap in (("constant", lambda x: Constant(x), lambda j: j["constant"]), ("name", lambda x: Name(x), lambda j: j["name"]),
+                                    ("docstring", lambda x: Function(Args(), x), lambda j: j["docstring"])):
+            got = unwrap(J.value_to_json(wrap(v)))
+            ctx.prove("lone_surrogate_string_is_tagged[%s]" % where, z3.BoolVal(isinstance(got, dict) and list(got) == ["string"] and isinstance(got["string"], str)), detail=repr(got))
+            if isinstance(got, dict) and isinstance(got.get("string"), str):
+                ctx.prove("written_in_ascii_only[%s]" % where, z3.BoolVal(all(ord(c) < 128 for c in got["string"])), detail="%d: %r" % (i, got["string"]))
+                back = J.constant_value_from_json(got) if hasattr(J, "constant_value_from_json") else None
+                ctx.prove("reads_back_exactly[%s]" % where, z3.BoolVal(back == v and type(back) is str), detail="%r -> %r" % (v, back))
